@@ -247,6 +247,7 @@ Section CNP.
     induction evs as [|ev evs IH]; intros s s' rs I G H; cbn [cn_run] in H.
     - injection H as <- <-. exact I.
     - destruct (step s ev) as [s1 r] eqn:ST. destruct (run s1 evs) as [s2 rs'] eqn:RN.
-      injection H as <- <-. inversion G; subst. eapply IH; eauto. eapply step_inv; eauto.
+      injection H as <- <-. inversion G as [|? ? G1 G2]; subst.
+      apply (IH s1 s2 rs'); [exact (step_inv _ _ _ _ I G1 ST)|exact G2|exact RN].
   Qed.
 End CNP.
